@@ -66,6 +66,13 @@ func (n *Net) fired(k string) {
 	}
 }
 
+// ConnsSnapshot returns the client ends dialled so far, in dial order.
+func (n *Net) ConnsSnapshot() []*Conn {
+	n.mu.Lock()
+	defer n.mu.Unlock()
+	return append([]*Conn{}, n.Conns...)
+}
+
 func (n *Net) Stats() map[string]int {
 	n.mu.Lock()
 	defer n.mu.Unlock()
@@ -147,8 +154,10 @@ var errTimeout error = &net.OpError{Op: "read", Net: "sim", Err: timeoutError{}}
 // ---------------------------------------------------------------------------------------------
 
 type segment struct {
-	data []byte
-	fin  bool
+	data  []byte
+	fin   bool
+	at    time.Time
+	reset bool // the connection is reset when this point of the stream is reached
 }
 
 // half is one direction of a connection: bytes written by `from`, read by `to`.
@@ -156,6 +165,7 @@ type half struct {
 	w        waiter
 	net      *Net
 	buf      []byte // delivered, unread
+	queue    []segment // scheduled, in stream order (delivery times are non-decreasing)
 	inflight int    // bytes scheduled but not delivered
 	lastAt   time.Time
 	fin      bool  // FIN delivered: Read returns EOF after buf is drained
@@ -226,17 +236,40 @@ func (c *Conn) StallOut(d time.Duration) {
 	c.out.w.mu.Unlock()
 }
 
-func (h *half) deliver(seg segment) {
+// schedule queues a segment for delivery at seg.at. Segments of one direction are delivered in
+// stream order whatever order the timers fire in (bubble timers with equal deadlines run as
+// independent goroutines).
+func (h *half) schedule(seg segment, onReset func()) {
 	h.w.mu.Lock()
-	h.inflight -= len(seg.data)
-	if h.reset == nil && !h.rclosed {
-		h.buf = append(h.buf, seg.data...)
-		if seg.fin {
-			h.fin = true
+	h.queue = append(h.queue, seg)
+	h.w.mu.Unlock()
+	after(time.Until(seg.at), func() { h.deliverDue(onReset) })
+}
+
+func (h *half) deliverDue(onReset func()) {
+	h.w.mu.Lock()
+	now := time.Now()
+	doReset := false
+	for len(h.queue) > 0 && !h.queue[0].at.After(now) {
+		seg := h.queue[0]
+		h.queue = h.queue[1:]
+		h.inflight -= len(seg.data)
+		if h.reset == nil && !h.rclosed {
+			h.buf = append(h.buf, seg.data...)
+			if seg.fin {
+				h.fin = true
+			}
+		}
+		if seg.reset {
+			doReset = true
+			break
 		}
 	}
 	h.w.mu.Unlock()
 	h.w.wake()
+	if doReset && onReset != nil {
+		onReset()
+	}
 }
 
 func (c *Conn) Write(p []byte) (int, error) {
@@ -316,11 +349,7 @@ func (c *Conn) Write(p []byte) (int, error) {
 		}
 		h.lastAt = at
 		h.w.mu.Unlock()
-		seg := segment{data: data}
-		after(time.Until(at), func() { h.deliver(seg) })
-		if doReset {
-			after(time.Until(at), func() { c.ResetNow() })
-		}
+		h.schedule(segment{data: data, at: at, reset: doReset}, c.ResetNow)
 		total += n
 		p = p[n:]
 	}
@@ -403,7 +432,7 @@ func (c *Conn) CloseWrite() error {
 	}
 	h.lastAt = at
 	h.w.mu.Unlock()
-	after(time.Until(at), func() { h.deliver(segment{fin: true}) })
+	h.schedule(segment{fin: true, at: at}, nil)
 	h.w.wake()
 	return nil
 }
